@@ -7,6 +7,7 @@
 import ast
 import json
 import os
+import re
 
 from report import AnalysisError, VERIF
 from pyfront import Repo, canon, attr_accesses, qualname, enclosing_func, enclosing_class, set_parents
@@ -14,7 +15,7 @@ from pyutil import rel
 from consteval import Ev, Unknown, Raised, _FALL
 import exprnf as X
 from exprnf import C, V
-from cfront import TU, kids, kind, strip, walk, ctext, array_extent, calls_to, call_args, fold_env, wrap_int
+from cfront import TU, kids, kind, strip, walk, ctext, array_extent, calls_to, call_args
 from rules import c19 as G
 
 EXPLANATION = (
@@ -49,7 +50,9 @@ EXPLANATION = (
     "folded for each of the 2715648 frame numbers (complete). The HSN range check of the constructor, when it is not written as "
     "comparisons with constants, is decided by folding the constructor for candidates on both sides of 0..63. A frequency getter "
     "may return a memo of resolve() only under guards on the HoppingParams object and the frame number, every store to the memo "
-    "(read from the source as written) being None or (object, fn, object.resolve(fn)).")
+    "(read from the source as written) being None or (object, fn, object.resolve(fn)). The firmware's use of the generator is read from "
+    "the value rfch_get_params() stores through its ARFCN output parameter (forward substitution, helpers handed the caller's time "
+    "substituted): every generator call that reaches it takes rfch_get_params()'s own time and the (hsn, maio, n, ma) of one descriptor.")
 ASSUMPTIONS = [
     "spec/hopping.json is a faithful transcription of TS 45.002 table 6.2.3 and of the algorithm of clause 6.2.3",
     "NBIN is the number of bits needed to represent N (TS 45.002 6.2.3), so 2^NBIN - 1 == (1 << N.bit_length()) - 1; the mask is "
@@ -218,177 +221,8 @@ def eval_term(t, env, call=None):
     return v
 
 
-class _Flow(Exception):
-    def __init__(self, what, value=None):
-        Exception.__init__(self, what)
-        self.what, self.value = what, value
-
-
-class CFold:
-    """Constant folder for a value-only C helper (integer parameters, own
-    locals only, no memory, no calls out of the TU): the checker's own
-    evaluator over the clang AST, used to fold the 2^NBIN mask helper for
-    each N of the finite domain when it is written with a loop.  Built on
-    cfront.fold_env for side-effect-free expressions."""
-    LIMIT = 20000
-
-    def __init__(self, tu, sym):
-        self.tu, self.sym = tu, sym
-        self.steps = 0
-
-    def call(self, name, args):
-        f = self.tu.functions.get(name)
-        if f is None or not any(kind(c) == "CompoundStmt" for c in kids(f)) or not self.sym.value_only(f):
-            return None
-        ps = self.tu.fparams(f)
-        if len(ps) != len(args):
-            return None
-        env = {p.get("name"): wrap_int(a, p.get("type", {}).get("qualType", "")) for p, a in zip(ps, args)}
-        try:
-            self.stmt(self.tu.body(f), env)
-        except _Flow as e:
-            return e.value if e.what == "return" else None
-        return None
-
-    @staticmethod
-    def _effect(n):
-        return any(kind(x) in ("CompoundAssignOperator", "CallExpr") or
-                   (kind(x) == "BinaryOperator" and x.get("opcode") in ("=", ",")) or
-                   (kind(x) == "UnaryOperator" and x.get("opcode") in ("++", "--")) for x in walk(n))
-
-    def _store(self, lhs, v, env):
-        t = strip(lhs)
-        if kind(t) != "DeclRefExpr" or v is None:
-            raise _Flow("unknown")
-        env[ctext(t)] = wrap_int(v, t.get("type", {}).get("qualType", ""))
-        return env[ctext(t)]
-
-    def expr(self, n, env):
-        m = strip(n)
-        if not self._effect(m):
-            return fold_env(self.tu, m, env)
-        k, ks = kind(m), kids(m)
-        if k == "BinaryOperator" and m.get("opcode") == "=":
-            return self._store(ks[0], self.expr(ks[1], env), env)
-        if k == "BinaryOperator" and m.get("opcode") == ",":
-            self.expr(ks[0], env)
-            return self.expr(ks[1], env)
-        if k == "CompoundAssignOperator":
-            a, b = self.expr(ks[0], env), self.expr(ks[1], env)
-            if a is None or b is None:
-                raise _Flow("unknown")
-            op = m.get("opcode")[:-1]
-            try:
-                v = {"+": a + b, "-": a - b, "*": a * b, "&": a & b, "|": a | b, "^": a ^ b,
-                     "<<": a << b if 0 <= b < 64 else None, ">>": a >> b if 0 <= b < 64 else None,
-                     "/": int(a / b) if b else None, "%": (a - b * int(a / b)) if b else None}.get(op)
-            except (ValueError, OverflowError):
-                v = None
-            return self._store(ks[0], v, env)
-        if k == "UnaryOperator" and m.get("opcode") in ("++", "--"):
-            a = self.expr(ks[0], env)
-            if a is None:
-                raise _Flow("unknown")
-            v = self._store(ks[0], a + (1 if m.get("opcode") == "++" else -1), env)
-            return a if m.get("isPostfix") else v
-        if k == "CallExpr":
-            args = [self.expr(a, env) for a in ks[1:]]
-            return None if any(a is None for a in args) else self.call(ctext(ks[0]), args)
-        if k == "BinaryOperator" and m.get("opcode") in ("&&", "||"):
-            a = self.expr(ks[0], env)
-            if a is None:
-                return None
-            if bool(a) == (m.get("opcode") == "||"):
-                return int(bool(a))
-            b = self.expr(ks[1], env)
-            return None if b is None else int(bool(b))
-        if k == "ConditionalOperator":
-            c = self.expr(ks[0], env)
-            return None if c is None else self.expr(ks[1] if c else ks[2], env)
-        # operator over operands with effects: evaluate the operands in order, then fold the operator
-        vals = {}
-        for c in ks:
-            if self._effect(c):
-                v = self.expr(c, env)
-                if v is None:
-                    return None
-                vals[ctext(c)] = v
-        env2 = dict(env)
-        env2.update(vals)
-        return fold_env(self.tu, m, env2)
-
-    def _tick(self):
-        self.steps += 1
-        if self.steps > self.LIMIT:
-            raise _Flow("unknown")
-
-    def stmt(self, st, env):
-        if not st:
-            return
-        k = kind(st)
-        ks = kids(st)
-        if k == "CompoundStmt":
-            for c in ks:
-                self.stmt(c, env)
-        elif k == "NullStmt":
-            pass
-        elif k == "DeclStmt":
-            for d in ks:
-                if kind(d) == "VarDecl":
-                    if d.get("init") and kids(d):
-                        v = self.expr(kids(d)[-1], env)
-                        env[d.get("name")] = None if v is None else wrap_int(v, d.get("type", {}).get("qualType", ""))
-                    else:
-                        env.pop(d.get("name"), None)
-        elif k == "ReturnStmt":
-            raise _Flow("return", self.expr(ks[0], env) if ks else None)
-        elif k == "BreakStmt":
-            raise _Flow("break")
-        elif k == "ContinueStmt":
-            raise _Flow("continue")
-        elif k == "IfStmt":
-            inner = list(st.get("inner", []))
-            has_else = st.get("hasElse", False)
-            if len(inner) != (3 if has_else else 2):
-                raise _Flow("unknown")
-            c = self.expr(inner[0], env)
-            if c is None:
-                raise _Flow("unknown")
-            if c:
-                self.stmt(inner[1], env)
-            elif has_else:
-                self.stmt(inner[2], env)
-        elif k in ("ForStmt", "WhileStmt", "DoStmt"):
-            if k == "ForStmt":
-                init, cond, inc, body = st["inner"][0], st["inner"][2], st["inner"][3], st["inner"][4]
-            elif k == "WhileStmt":
-                init, cond, inc, body = None, st["inner"][-2], None, st["inner"][-1]
-            else:
-                init, cond, inc, body = None, st["inner"][1], None, st["inner"][0]
-            if init:
-                self.stmt(init, env) if kind(init) == "DeclStmt" else self.expr(init, env)
-            first = True
-            while True:
-                self._tick()
-                if not (k == "DoStmt" and first) and cond:
-                    c = self.expr(cond, env)
-                    if c is None:
-                        raise _Flow("unknown")
-                    if not c:
-                        break
-                first = False
-                try:
-                    self.stmt(body, env)
-                except _Flow as e:
-                    if e.what == "break":
-                        break
-                    if e.what != "continue":
-                        raise
-                if inc:
-                    self.expr(inc, env)
-        else:
-            if self.expr(st, env) is None and not self._effect(st):
-                raise _Flow("unknown")
+# the constant folder for value-only C helpers lives in rules/c19.py (shared with C19.R2)
+_Flow, CFold = G._Flow, G.CFold
 
 
 def nbin_mask(n):
@@ -1288,23 +1122,106 @@ def r6_getters(L, repo):
                  node.lineno)
 
 
+class _UseSym(G.CSym):
+    """forward substitution that keeps a call of the hopping generator as an opaque term over its lowered arguments
+    (locals and the parameters of extracted helpers substituted), whatever it is handed"""
+
+    def __init__(self, tu, keep):
+        G.CSym.__init__(self, tu)
+        self.keep = keep
+
+    def call(self, m, lw):
+        ks = kids(m)
+        if ctext(ks[0]) == self.keep:
+            return ("call", self.keep) + tuple(lw.lower(a) for a in ks[1:])
+        return G.CSym.call(self, m, lw)
+
+
+def _hop_uses_by_value(cs, g, gp):
+    """[(argument texts, line)] of the generator calls whose value rfch_get_params() stores through its ARFCN output
+    parameter, found by forward substitution of the whole function (helpers that are handed the caller's time
+    substituted, temporaries resolved); AnalysisError when the function leaves the vocabulary"""
+    tu = cs.tu
+    if len(gp) < 2:
+        raise AnalysisError("rfch_get_params(): expected (t, arfcn_p, ...)")
+    sym = _UseSym(tu, cs.HOP)
+    out = sym.run(g)
+    val = sym.final(out, "*%s" % gp[1])
+    uses = []
+    for x in G.subterms(val):
+        if x[0] == "call" and x[1] == cs.HOP:
+            args = [G.show(a) for a in x[2:]]
+            if args not in [u[0] for u in uses]:
+                uses.append((args, tu.line(g)))
+    return uses
+
+
+def _hop_uses_by_call_graph(cs, g, gp):
+    """fallback: the call sites of the generator in rfch_get_params() and in the functions of the same file it reaches,
+    the time argument traced back through the callers' parameters to rfch_get_params()'s own"""
+    tu = cs.tu
+    defined = {n: f for n, f in tu.functions.items() if any(kind(c) == "CompoundStmt" for c in kids(f))}
+    gname = g.get("name")
+
+    def callees(f):
+        return {ctext(kids(c)[0]) for c in walk(tu.body(f)) if kind(c) == "CallExpr"} & set(defined)
+    reach, todo = {gname}, [gname]
+    while todo:
+        for n in callees(defined[todo.pop()]):
+            if n not in reach and n != cs.HOP:
+                reach.add(n)
+                todo.append(n)
+
+    def own_time(fname, text, depth=0):
+        """`text` is, in function fname, rfch_get_params()'s own time parameter handed down unchanged"""
+        if fname == gname:
+            return bool(gp) and text == gp[0]
+        ps = [p.get("name") for p in tu.fparams(defined[fname])]
+        if text not in ps or depth > 3:
+            return False
+        i = ps.index(text)
+        sites = [(n, c) for n in reach for c in calls_to(tu.body(defined[n]), fname)]
+        return bool(sites) and all(len(call_args(c)) == len(ps) and own_time(n, ctext(call_args(c)[i]), depth + 1) for n, c in sites)
+    uses = []
+    for n in sorted(reach):
+        for c in calls_to(tu.body(defined[n]), cs.HOP):
+            args = [ctext(a) for a in call_args(c)]
+            if args and own_time(n, args[0]):
+                args[0] = gp[0]
+            elif args and n != gname:
+                args[0] = "%s in %s()" % (args[0], n)
+            uses.append((args, tu.line(c)))
+    return uses
+
+
 def r6_c_use(L, cs):
-    # firmware: rfch_get_params hands its own time and the h1 parameters to the generator
+    # firmware: rfch_get_params hands its own time and the h1 parameters to the generator -- decided on the value stored
+    # through the ARFCN output parameter, so the call may sit in rfch_get_params() itself or in a helper it calls
     tu = cs.tu
     g = tu.func("rfch_get_params")
     L.fn(F_RFCH, "rfch_get_params")
     gp = [p.get("name") for p in tu.fparams(g)]
-    calls = calls_to(tu.body(g), cs.HOP)
-    L.floor("C07.R6", "rfch_hop_seq_gen call sites in rfch_get_params", len(calls), 1)
-    for c in calls:
-        args = [ctext(a) for a in call_args(c)]
+    try:
+        uses = _hop_uses_by_value(cs, g, gp)
+        how = "forward substitution of rfch_get_params()"
+    except AnalysisError as e:
+        uses = _hop_uses_by_call_graph(cs, g, gp)
+        how = "call sites reached from rfch_get_params() (%s)" % str(e)[:120]
+    L.extra["generator_use"] = how
+    L.floor("C07.R6", "rfch_hop_seq_gen calls that determine the ARFCN returned by rfch_get_params", len(uses), 1)
+    plain = re.compile(r"(&|addr\()?[A-Za-z_][\w.\[\]>-]*\)?( in \w+\(\))?$")
+    for args, line in uses:
         roles = ["hsn", "maio", "n", "ma"]
+        odd = [a for a in args if not plain.match(a)]
+        if odd:
+            # an argument that is computed (masked, converted, selected) is not one of the recognised wrong shapes
+            raise AnalysisError("rfch_get_params(): rfch_hop_seq_gen is handed `%s`; unclassifiable" % odd[0][:80])
         pre = {a[:-len(r) - 1] for a, r in zip(args[1:], roles) if a.endswith("." + r) or a.endswith("->" + r)}
         ok = len(args) == 5 and bool(gp) and args[0] == gp[0] and len(pre) == 1 and all(
             a.endswith("." + r) or a.endswith("->" + r) for a, r in zip(args[1:], roles))
         L.ob("C07.R6", F_RFCH, "rfch_get_params",
              "rfch_hop_seq_gen is called with the caller's GSM time and the (hsn, maio, n, ma) of one hopping descriptor",
-             "(%s, X.hsn, X.maio, X.n, X.ma)" % (gp[0] if gp else "t"), args, ok, tu.line(c))
+             "(%s, X.hsn, X.maio, X.n, X.ma)" % (gp[0] if gp else "t"), args, ok, line)
     try:
         flds = dict(tu.record_fields("l1s_h1"))
     except AnalysisError:
